@@ -61,6 +61,8 @@ type Step struct {
 	On     bool `json:"on,omitempty"`     // promiscuous on/off, subnet add/remove
 	Sub    int  `json:"sub,omitempty"`    // subnet pool index
 	Bind   int  `json:"bind,omitempty"`   // active open: 0 unbound, 1 wildcard + port, 2 address + port
+	RFam   int  `json:"rfam,omitempty"`   // udp-connect: peer 0 of the socket's family, 1 IPv4-mapped (IPv6 sockets), 2 plain address of the other family
+	Former bool `json:"former,omitempty"` // Ref selects a FORMER identity (of a closed or re-connected socket) instead of an open socket
 }
 
 type SeqCase struct {
@@ -125,6 +127,7 @@ type seqRun struct {
 	allRaw  []*msock
 	tainted map[string]bool // TCP 4-tuples whose endpoint may linger after the socket was closed / aborted
 	pinned  map[tcpip.Address]bool
+	former  []ident // identities that sockets held and gave up (Close, Connect): nobody holds them now unless re-opened
 	peers   map[string]bool // every 4-tuple a handshake was completed (or attempted by the stack) on
 	exps    []*tcpExp
 	step    int
@@ -202,6 +205,9 @@ func (r *seqRun) adopt(m *msock, id ident) *evid.Failure {
 			return evid.Failf("duplicate-identity-accepted", "step %d: the operation succeeded and the socket now has identity [%s], which open socket %s already holds; the single addressee of a packet is no longer defined\n%s", r.step, id, o, r.world())
 		}
 	}
+	if r.isOpen(m) && m.id != id {
+		r.remember(m.id)
+	}
 	m.id = id
 	if m.kind != kRaw && id.connected() && id.LA != "" {
 		r.pinned[id.LA] = true
@@ -223,7 +229,17 @@ func (r *seqRun) adopt(m *msock, id ident) *evid.Failure {
 	return nil
 }
 
+func (r *seqRun) remember(id ident) {
+	r.former = append(r.former, id)
+	if len(r.former) > 12 {
+		r.former = r.former[1:]
+	}
+}
+
 func (r *seqRun) drop(m *msock) {
+	if r.isOpen(m) {
+		r.remember(m.id)
+	}
 	for i, o := range r.open {
 		if o == m {
 			r.open = append(r.open[:i:i], r.open[i+1:]...)
@@ -258,6 +274,24 @@ func (r *seqRun) remoteArg(st Step, v6 bool) tcpip.Address {
 	return raddrs[k]
 }
 
+// peerArg is remoteArg for UDP connect, where the peer may also be IPv4-mapped
+// (IPv6 socket talking IPv4) or a plain address of the other family.
+func (r *seqRun) peerArg(st Step, v6 bool) (tcpip.Address, string) {
+	k := mod(st.RAddr, 2)
+	switch mod(st.RFam, 3) {
+	case 1:
+		if v6 {
+			return tcpip.Address("\x00\x00\x00\x00\x00\x00\x00\x00\x00\x00\xff\xff") + raddrs[k], "v4-mapped"
+		}
+	case 2:
+		if v6 {
+			return raddrs[k], "other-family"
+		}
+		return raddrs[k+2], "other-family"
+	}
+	return r.remoteArg(st, v6), "same-family"
+}
+
 func (r *seqRun) opUDPBind(st Step) *evid.Failure {
 	addr, ok := r.localArg(st, st.V6)
 	if !ok {
@@ -271,9 +305,32 @@ func (r *seqRun) opUDPBind(st Step) *evid.Failure {
 	if st.V6 && st.V6Only {
 		so.EP.SetSockOpt(tcpip.V6OnlyOption(1))
 	}
-	if e := so.EP.Bind(tcpip.FullAddress{Addr: addr, Port: lports[mod(st.Port, len(lports))]}, nil); e != nil {
+	port := lports[mod(st.Port, len(lports))]
+	rebind := false
+	if st.Former && st.Ref >= 0 && len(r.former) > 0 {
+		// take the place a socket gave up: its port, and its address if it fits
+		f := r.former[mod(st.Ref, len(r.former))]
+		if f.Trans == transUDP && f.LP != 0 {
+			port, rebind = f.LP, true
+			if st.Addr >= 0 && f.LA != "" && isV6(f.LA) == st.V6 {
+				addr = f.LA
+			}
+		}
+	}
+	if e := so.EP.Bind(tcpip.FullAddress{Addr: addr, Port: port}, nil); e != nil {
 		so.EP.Close()
 		evid.Label("refused:udp-bind:" + e.String())
+		if e == tcpip.ErrPortInUse {
+			held := false
+			for _, o := range r.open {
+				if o.id.Trans == transUDP && o.id.LP == port {
+					held = true
+				}
+			}
+			if !held {
+				return evid.Failf("closed-socket-still-holds-identity", "step %d: Bind(%v:%d) of a new UDP socket was refused with %v although no open UDP socket or endpoint holds port %d in any form; identities given up earlier: %v\n%s", r.step, addr, port, e, port, r.former, r.world())
+			}
+		}
 		return nil
 	}
 	id, e := identOf(transUDP, so, st.V6, st.V6 && st.V6Only)
@@ -282,19 +339,24 @@ func (r *seqRun) opUDPBind(st Step) *evid.Failure {
 		return nil
 	}
 	evid.Label("opened:udp-bound")
+	if rebind {
+		evid.Label("udp-bind:takes-over-former-identity")
+	}
 	return r.adopt(&msock{kind: kUDP, sock: so, v6: st.V6, v6only: st.V6 && st.V6Only}, id)
 }
 
 func (r *seqRun) opUDPConnect(st Step) *evid.Failure {
 	var m *msock
-	if st.Ref >= 0 {
+	if st.Ref >= 0 || st.Ref == -2 {
 		var c []*msock
 		for _, o := range r.open {
 			if o.kind == kUDP {
 				c = append(c, o)
 			}
 		}
-		if len(c) > 0 {
+		if len(c) > 0 && st.Ref == -2 {
+			m = c[len(c)-1] // the UDP socket opened last
+		} else if len(c) > 0 {
 			m = c[mod(st.Ref, len(c))]
 		}
 	}
@@ -309,7 +371,13 @@ func (r *seqRun) opUDPConnect(st Step) *evid.Failure {
 		}
 		m = &msock{kind: kUDP, sock: so, v6: st.V6, v6only: st.V6 && st.V6Only}
 	}
-	e := m.sock.EP.Connect(tcpip.FullAddress{Addr: r.remoteArg(st, m.v6), Port: rports[mod(st.RPort, len(rports))]})
+	peer, fam := r.peerArg(st, m.v6)
+	nic := mod(st.NIC, 3)
+	if nic > r.w.nics {
+		nic = 0
+	}
+	was := m.id
+	e := m.sock.EP.Connect(tcpip.FullAddress{NIC: tcpip.NICID(nic), Addr: peer, Port: rports[mod(st.RPort, len(rports))]})
 	if e != nil {
 		evid.Label("refused:udp-connect:" + e.String())
 		if fresh {
@@ -318,6 +386,23 @@ func (r *seqRun) opUDPConnect(st Step) *evid.Failure {
 		}
 	} else {
 		evid.Label("opened:udp-connected")
+		cls := "udp-connect:" + fam
+		if nic != 0 {
+			cls += "+explicit-interface"
+		}
+		switch {
+		case fresh:
+			cls += ":unbound"
+		case was.connected():
+			cls += ":re-connect"
+		case was.LA == "" && was.Nets == net4|net6:
+			cls += ":dual-stack-wildcard-bound"
+		case was.LA == "":
+			cls += ":wildcard-bound"
+		default:
+			cls += ":address-bound"
+		}
+		evid.Label(cls)
 	}
 	id, ie := identOf(transUDP, m.sock, m.v6, m.v6only)
 	if ie != nil {
@@ -464,8 +549,14 @@ func (r *seqRun) mix(st Step, nLocal int) (trans int, la tcpip.Address, lp uint1
 	lp = lports[mod(st.Port, len(lports))]
 	ra = raddrs[mod(st.RAddr, len(raddrs))]
 	rp = rports[mod(st.RPort, len(rports))]
-	if st.Ref >= 0 && len(r.open) > 0 {
-		t := r.open[mod(st.Ref, len(r.open))].id
+	var tgt *ident
+	if st.Ref >= 0 && st.Former && len(r.former) > 0 {
+		tgt = &r.former[mod(st.Ref, len(r.former))]
+	} else if st.Ref >= 0 && len(r.open) > 0 {
+		tgt = &r.open[mod(st.Ref, len(r.open))].id
+	}
+	if tgt != nil {
+		t := *tgt
 		if st.Mut&32 == 0 {
 			trans = t.Trans
 		}
@@ -921,6 +1012,9 @@ func (r *seqRun) opInject(st Step) (*evid.Failure, bool) {
 		cls += fmt.Sprintf("%s-rank%d", [...]string{"socket", "listener", "connection", "raw"}[want.kind], v.Rank)
 	}
 	evid.Label("inject:" + cls)
+	if st.Former && st.Ref >= 0 && len(r.former) > 0 {
+		evid.Label("inject:at-former-identity:" + cls)
+	}
 	if v.Processed && v.Via != "assigned" {
 		evid.Label("inject:via-" + v.Via)
 	}
@@ -1174,6 +1268,7 @@ func genStep(rt *rapid.T, op int) Step {
 		if rapid.IntRange(0, 7).Draw(rt, "targeted") > 0 {
 			st.Ref = pick("ref", 12)
 			st.Mut = fewBits("mut")
+			st.Former = pick("former", 6) == 0
 		}
 	case opUDPBind, opTCPListen:
 		st.V6 = pick("v6", 3) == 0
@@ -1187,13 +1282,18 @@ func genStep(rt *rapid.T, op int) Step {
 			}
 		}
 		st.Port = pick("port", len(lports))
+		if op == opUDPBind && pick("takeover", 4) == 0 {
+			st.Ref, st.Former = pick("ref", 12), true
+		}
 	case opUDPConnect:
-		st.V6 = pick("v6", 3) == 0
-		st.V6Only = st.V6 && rapid.Bool().Draw(rt, "v6only")
-		if rapid.Bool().Draw(rt, "existing") {
+		st.V6 = pick("v6", 5) < 2
+		st.V6Only = st.V6 && pick("v6only", 3) == 0
+		if pick("existing", 3) > 0 {
 			st.Ref = pick("ref", 8)
 		}
 		st.RAddr, st.RPort = pick("raddr", 2), pick("rport", len(rports))
+		st.NIC = rapid.SampledFrom([]int{0, 0, 0, 0, 1, 1, 2}).Draw(rt, "nic")
+		st.RFam = rapid.SampledFrom([]int{0, 0, 0, 0, 1, 1, 2}).Draw(rt, "rfam")
 	case opTCPActive:
 		st.V6 = pick("v6", 3) == 0
 		st.Bind = pick("bind", 3)
@@ -1213,6 +1313,7 @@ func genStep(rt *rapid.T, op int) Step {
 		if rapid.IntRange(0, 3).Draw(rt, "related") > 0 {
 			st.Ref = pick("ref", 12)
 			st.Mut = rapid.SampledFrom([]int{0, 0, 0, 1, 4, 8, 32, 32 | 1}).Draw(rt, "mut")
+			st.Former = pick("former", 8) == 0
 		}
 	case opClose:
 		st.Ref = pick("ref", 12)
@@ -1230,7 +1331,7 @@ func genStep(rt *rapid.T, op int) Step {
 }
 
 var opWeights = func() []int {
-	w := map[int]int{opInject: 40, opUDPBind: 9, opUDPConnect: 6, opTCPListen: 8, opTCPActive: 3, opRawReg: 14, opClose: 7, opAddAddr: 3, opRemoveAddr: 3, opPromisc: 3, opSubnet: 4}
+	w := map[int]int{opInject: 40, opUDPBind: 10, opUDPConnect: 9, opTCPListen: 8, opTCPActive: 3, opRawReg: 14, opClose: 7, opAddAddr: 3, opRemoveAddr: 3, opPromisc: 3, opSubnet: 4}
 	var out []int
 	for op := 0; op < nOps; op++ {
 		for k := 0; k < w[op]; k++ {
@@ -1249,7 +1350,39 @@ func genSeq(rt *rapid.T) SeqCase {
 	}
 	n := rapid.IntRange(6, 40).Draw(rt, "steps")
 	for i := 0; i < n; i++ {
-		c.Steps = append(c.Steps, genStep(rt, rapid.SampledFrom(opWeights).Draw(rt, "op")))
+		op := rapid.SampledFrom(opWeights).Draw(rt, "op")
+		if op == opUDPConnect && rapid.IntRange(0, 2).Draw(rt, "bind-then-connect") == 0 {
+			// Bind immediately followed by Connect of that socket: the shapes in which
+			// Connect moves the socket's registration (to an interface, to another family)
+			b := genStep(rt, opUDPBind)
+			b.Former, b.Ref = false, -1
+			b.V6 = rapid.Bool().Draw(rt, "v6")
+			b.V6Only = b.V6 && rapid.IntRange(0, 3).Draw(rt, "v6only") == 0
+			b.Addr = -1
+			if rapid.IntRange(0, 2).Draw(rt, "specific") == 0 {
+				b.Addr = rapid.SampledFrom([]int{0, 1, 2}).Draw(rt, "addr")
+				if b.V6 {
+					b.Addr = rapid.SampledFrom([]int{3, 4}).Draw(rt, "addr6")
+				}
+			}
+			cn := genStep(rt, opUDPConnect)
+			cn.Ref, cn.V6, cn.V6Only = -2, b.V6, b.V6Only
+			cn.NIC = rapid.SampledFrom([]int{0, 1, 1, 2}).Draw(rt, "cnic")
+			if b.V6 {
+				cn.RFam = rapid.SampledFrom([]int{0, 1, 1, 2}).Draw(rt, "crfam")
+			}
+			c.Steps = append(c.Steps, b, cn)
+			// and traffic for the identity it just gave up / the one it has now
+			for k := rapid.IntRange(1, 3).Draw(rt, "probes"); k > 0; k-- {
+				in := genStep(rt, opInject)
+				in.Trans = transUDP
+				in.Ref = rapid.IntRange(0, 3).Draw(rt, "pref")
+				in.Former = rapid.Bool().Draw(rt, "pformer")
+				c.Steps = append(c.Steps, in)
+			}
+			continue
+		}
+		c.Steps = append(c.Steps, genStep(rt, op))
 	}
 	return c
 }
